@@ -195,6 +195,19 @@ def run(case):
         probs = monitors.treesan(C)
         if probs and not monitors.treesan(O2):
             vio.append({'mech': 'copy-inconsistent', 'what': f'the copy violates container invariants the original satisfies: {probs[0]}; {txt}'})
+        if not vio:
+            # a container copied out of the middle of the tree keeps what it inherited from the ancestors it leaves behind
+            from awesomeyaml.nodes.composed import ComposedNode
+            inner1 = [n for n in O1.ayns.nodes(include_self=False, allow_duplicates=True) if isinstance(n, ComposedNode) and not isinstance(n, tuple)]
+            inner2 = [n for n in O2.ayns.nodes(include_self=False, allow_duplicates=True) if isinstance(n, ComposedNode) and not isinstance(n, tuple)]
+            if inner1 and len(inner1) == len(inner2):
+                k = int(case['muts'][0]['sel'] * len(inner1))
+                ci = lib.outcome(do_copy, inner1[k], case['method'])
+                feats.append('inner_container_copied')
+                if ci[0] == 'err':
+                    vio.append({'mech': 'copy-raises', 'what': f'{case["method"]} of an inner container raises {type(ci[1]).__name__}: {ci[1]}; {txt}'})
+                elif tv(ci[1]) != tv(inner2[k]):
+                    vio.append({'mech': 'inner-copy-differs', 'what': f'copy of inner container #{k} ({type(inner1[k]).__name__}) differs from the original: {_diff(tv(ci[1]), tv(inner2[k]))}; {txt}'})
         if not vio and case['buildable']:
             feats.append('behaviour_checked')
             bc, bo = behaviour(case, do_copy(O1, case['method'])), behaviour(case, O2)
